@@ -103,7 +103,19 @@ type Ctx struct {
 	// case passes when replayed alone, it is replayed after them (state leaking between calls).
 	ring    [6]interface{}
 	ringPos int
+
+	// prefix replay (see ReplayMain): re-execute this worker's case sequence up to and including
+	// case stopAt, remember whether that case fails, then stop
+	prefixMode bool
+	stopAt     int64
+	stopFail   *Failure
+
+	// fail-fast (VERIF_FAILFAST=1, development aid for mutation scans): the first violation recorded
+	// by any worker creates stopFile; every worker then stops enumerating (exhaustive:false).
+	stopFile string
 }
+
+type prefixStop struct{}
 
 type violation struct {
 	Index   int64             `json:"index"`
@@ -111,6 +123,15 @@ type violation struct {
 	Msg     string            `json:"msg"`
 	Finding string            `json:"finding,omitempty"`
 	History []json.RawMessage `json:"history,omitempty"`
+	Worker  *workerRef        `json:"worker,omitempty"`
+}
+
+// workerRef identifies a case by its position in a worker's deterministic case sequence.
+type workerRef struct {
+	Tier    string `json:"tier"`
+	Shard   int    `json:"shard"`
+	NShards int    `json:"nshards"`
+	Index   int64  `json:"index"`
 }
 
 type result struct {
@@ -144,6 +165,9 @@ func (c *Ctx) Quick() bool { return c.Tier != "thorough" }
 // and the run is reported with exhaustive:false.
 func (c *Ctx) Mine() bool {
 	i := c.counter
+	if c.prefixMode && i > c.stopAt {
+		panic(prefixStop{}) // everything that belongs to case stopAt has run
+	}
 	c.counter++
 	if c.expired {
 		return false
@@ -152,6 +176,13 @@ func (c *Ctx) Mine() bool {
 		c.expired = true
 		c.res.Expired = true
 		return false
+	}
+	if i&0x3ff == 0 && c.stopFile != "" {
+		if _, err := os.Stat(c.stopFile); err == nil {
+			c.expired = true
+			c.res.Expired = true
+			return false
+		}
 	}
 	return int(i%int64(c.NShards)) == c.Shard
 }
@@ -162,6 +193,12 @@ func (c *Ctx) Tick() bool {
 	if c.ticks&0x3ff == 0 && !c.expired && !c.deadline.IsZero() && time.Now().After(c.deadline) {
 		c.expired = true
 		c.res.Expired = true
+	}
+	if c.ticks&0x3ff == 0 && !c.expired && c.stopFile != "" {
+		if _, err := os.Stat(c.stopFile); err == nil {
+			c.expired = true
+			c.res.Expired = true
+		}
 	}
 	return c.expired
 }
@@ -246,8 +283,15 @@ func (c *Ctx) Report(desc interface{}, fail *Failure) {
 		}
 		return
 	}
+	if c.prefixMode {
+		if c.counter-1 == c.stopAt && c.stopFail == nil {
+			c.stopFail = fail
+		}
+		return
+	}
 	if len(c.res.Violations) < 40 {
-		v := violation{Index: c.counter - 1, Desc: raw, Msg: fail.Msg, Finding: fail.Finding}
+		v := violation{Index: c.counter - 1, Desc: raw, Msg: fail.Msg, Finding: fail.Finding,
+			Worker: &workerRef{Tier: c.Tier, Shard: c.Shard, NShards: c.NShards, Index: c.counter - 1}}
 		if len(c.res.Violations) < 6 {
 			for i := 0; i < len(c.ring); i++ {
 				if d := c.ring[(c.ringPos+i)%len(c.ring)]; d != nil {
@@ -258,6 +302,11 @@ func (c *Ctx) Report(desc interface{}, fail *Failure) {
 			}
 		}
 		c.res.Violations = append(c.res.Violations, v)
+		if c.stopFile != "" {
+			_ = os.WriteFile(c.stopFile, []byte("violation"), 0o644)
+			c.expired = true
+			c.res.Expired = true
+		}
 	}
 }
 
@@ -385,6 +434,9 @@ func WorkerMain(id, tier string, shard, nshards int, outPath string) int {
 		nontrivial: map[uint64]struct{}{}, outcomes: map[string]int64{}}
 	ctx.res.Extra = map[string]int64{}
 	ctx.res.Known = map[string]known{}
+	if os.Getenv("VERIF_FAILFAST") == "1" {
+		ctx.stopFile = filepath.Join(filepath.Dir(outPath), "STOP")
+	}
 	setupOK := true
 	if chk.Setup != nil {
 		if fail := Guard(func() *Failure { chk.Setup(); return nil }); fail != nil {
@@ -676,6 +728,9 @@ type replayFile struct {
 	// History: the cases the same worker executed just before (oldest first). Only used when the
 	// case passes on its own: it is then replayed after them.
 	History []json.RawMessage `json:"history,omitempty"`
+	// Worker: where the case sits in its worker's case sequence. Last resort when the case passes
+	// alone and after History: the whole sequence up to it is re-executed in a fresh process.
+	Worker *workerRef `json:"worker,omitempty"`
 }
 
 func writeReplay(vd, id string, v violation) string {
@@ -683,7 +738,7 @@ func writeReplay(vd, id string, v violation) string {
 	dir := filepath.Join(vd, "replays")
 	_ = os.MkdirAll(dir, 0o755)
 	path := filepath.Join(dir, id+"-"+hex.EncodeToString(sum[:6])+".json")
-	b, _ := json.MarshalIndent(replayFile{Property: id, Msg: v.Msg, Finding: v.Finding, Desc: v.Desc, History: v.History}, "", " ")
+	b, _ := json.MarshalIndent(replayFile{Property: id, Msg: v.Msg, Finding: v.Finding, Desc: v.Desc, History: v.History, Worker: v.Worker}, "", " ")
 	_ = os.WriteFile(path, b, 0o644)
 	return path
 }
@@ -747,6 +802,9 @@ func ReplayMain(path string) int {
 		return 1
 	}
 	var fail *Failure
+	if os.Getenv("VERIF_REPLAY_PREFIX") == "1" && rf.Worker != nil {
+		return prefixReplay(path, chk, rf)
+	}
 	if os.Getenv("VERIF_REPLAY_HISTORY") == "1" {
 		// history mode (fresh process): the cases executed before it in the worker, then the case
 		for _, h := range rf.History {
@@ -756,9 +814,22 @@ func ReplayMain(path string) int {
 		if fail = Guard(func() *Failure { return chk.Replay(rf.Desc) }); fail != nil {
 			fail.Msg = fmt.Sprintf("(passes when run alone, fails after the %d cases executed before it in the same process: state leaks between calls)\n", len(rf.History)) + fail.Msg
 		}
+		if fail == nil && rf.Worker != nil {
+			// still passes: re-execute the worker's whole case sequence up to it, in another fresh process
+			if self, err := os.Executable(); err == nil {
+				cmd := exec.Command(self, "replay", path)
+				cmd.Env = append(os.Environ(), "VERIF_REPLAY_PREFIX=1")
+				out, err := cmd.CombinedOutput()
+				fmt.Print(string(out))
+				if ee, ok := err.(*exec.ExitError); ok {
+					return ee.ExitCode()
+				}
+				return 0
+			}
+		}
 	} else {
 		fail = Guard(func() *Failure { return chk.Replay(rf.Desc) })
-		if fail == nil && len(rf.History) > 0 {
+		if fail == nil && (len(rf.History) > 0 || rf.Worker != nil) {
 			// passes alone: replay it as the last step of the short history it was found in, in a
 			// fresh process (running it alone first may already have changed the leaking state)
 			if self, err := os.Executable(); err == nil {
@@ -781,5 +852,39 @@ func ReplayMain(path string) int {
 	if fail.Finding != "" {
 		fmt.Printf("finding signature: %s\n", fail.Finding)
 	}
+	return 1
+}
+
+// prefixReplay re-executes, in this (fresh) process, the deterministic case sequence of the worker
+// that found the failure, up to and including the failing case: exit 1 if that case fails again.
+func prefixReplay(path string, chk *Check, rf replayFile) int {
+	w := rf.Worker
+	ctx := &Ctx{Tier: w.Tier, Seed: seed(), Shard: w.Shard, NShards: w.NShards,
+		nontrivial: map[uint64]struct{}{}, outcomes: map[string]int64{}, prefixMode: true, stopAt: w.Index}
+	ctx.res.Extra = map[string]int64{}
+	ctx.res.Known = map[string]known{}
+	ctx.ntCapped = true
+	if chk.Setup != nil {
+		if fail := Guard(func() *Failure { chk.Setup(); return nil }); fail != nil {
+			fmt.Printf("replay %s: FAILS\n%s\n", path, fail.Msg)
+			return 1
+		}
+	}
+	func() {
+		defer func() {
+			if r := recover(); r != nil {
+				if _, ok := r.(prefixStop); !ok {
+					ctx.stopFail = &Failure{Msg: fmt.Sprintf("panic outside a case while re-executing the worker's sequence: %v", r)}
+				}
+			}
+		}()
+		chk.Run(ctx)
+	}()
+	if ctx.stopFail == nil {
+		fmt.Printf("replay %s: case passes (alone, after its recent history, and as case %d of worker %d/%d re-executed from the start)\n", path, w.Index, w.Shard, w.NShards)
+		return 0
+	}
+	fmt.Printf("replay %s: FAILS\n(passes when run alone; fails when the case sequence of worker %d/%d is re-executed from its start up to this case, no. %d, in a fresh process: state leaks between calls)\n%s\n",
+		path, w.Shard, w.NShards, w.Index, ctx.stopFail.Msg)
 	return 1
 }
